@@ -24,6 +24,7 @@ type TunnelProbe struct {
 	ServeReturned bool
 	ServeErr      error
 	RegistryAll   int
+	NestedAlive   int // an inner tunnel RPC is still in flight on this (outer) tunnel
 }
 
 // ProbeTunnels records the externally visible state of every tunnel.
@@ -43,6 +44,18 @@ func (w *World) ProbeTunnels(mark string) {
 			p.ServerTables = append(p.ServerTables, s.Streams())
 		}
 		p.ServeReturned, p.ServeErr = t.ServeReturned, t.ServeErr
+		for _, in := range w.Tunnels {
+			if in.Outer == t && in.Chan != nil {
+				select {
+				case <-in.Chan.Done():
+				default:
+					p.NestedAlive = 1
+				}
+				if in.RevServer != nil && !in.ServeReturned {
+					p.NestedAlive = 1
+				}
+			}
+		}
 		if t.Handler != nil && t.RevServer != nil {
 			p.RegistryAll = len(t.Handler.AllReverseTunnels())
 		}
@@ -129,19 +142,7 @@ func OracleLeak(w *World, h *History) {
 				}
 			}
 			// the tunnel RPC of a nested (inner) tunnel is in flight on its outer tunnel
-			nested := 0
-			for _, t := range w.Tunnels {
-				if t.Outer != nil && t.Outer.Idx == p.Tunnel && t.Chan != nil {
-					select {
-					case <-t.Chan.Done():
-					default:
-						nested = 1
-					}
-					if t.RevServer != nil && !t.ServeReturned {
-						nested = 1
-					}
-				}
-			}
+			nested := p.NestedAlive
 			// calls that have not obtained their terminal result yet (only in runs that hang)
 			unfinished := 0
 			for _, id := range h.RPCIDs {
@@ -153,7 +154,15 @@ func OracleLeak(w *World, h *History) {
 					unfinished++
 				}
 			}
-			if p.ClientTable >= 0 && (p.ClientTable > nested+unfinished || (unfinished == 0 && p.ClientTable != nested)) {
+			// the tunnel RPC of an inner tunnel may or may not have completed by now
+			// (its serving side returns only once it has noticed the end)
+			innerMax := nested
+			for _, in := range w.Tunnels {
+				if in.Outer != nil && in.Outer.Idx == p.Tunnel {
+					innerMax = 1
+				}
+			}
+			if p.ClientTable >= 0 && (p.ClientTable > innerMax+unfinished || (unfinished == 0 && p.ClientTable < nested)) {
 				w.AddViolation("C14", "client-table-mismatch", fmt.Sprintf("tunnel %d: %d entries in the channel's stream table at final quiescence, but only %d call(s) have not finished (+%d nested tunnel)", p.Tunnel, p.ClientTable, unfinished, nested),
 					map[string]string{"mark": p.Mark}, e.Seq)
 			}
@@ -161,7 +170,7 @@ func OracleLeak(w *World, h *History) {
 			for _, n := range p.ServerTables {
 				total += n
 			}
-			if total != inflightHandlers+nested && !(nested == 1 && total == inflightHandlers) {
+			if total < inflightHandlers || total > inflightHandlers+innerMax {
 				w.AddViolation("C14", "server-table-mismatch", fmt.Sprintf("tunnel %d: %d entries in the server stream table(s) at a quiescent point, but %d handlers are still running", p.Tunnel, total, inflightHandlers),
 					map[string]string{"mark": p.Mark}, e.Seq)
 			}
@@ -242,10 +251,7 @@ func OracleHung(prop string) func(w *World, h *History) {
 		// for a stream whose application does not read blocks the receive
 		// loop in accept(), so nothing else on the tunnel - including its end -
 		// is noticed.
-		hol := "no"
-		if strings.Contains(stacks, "noFlowControlReceiver") && strings.Contains(stacks, ".accept(") {
-			hol = "recv-loop-blocked-in-rev0-accept"
-		}
+		hol := holFromStacks(stacks)
 		for _, id := range h.RPCIDs {
 			r := h.RPCs[id]
 			for _, o := range r.Ops {
@@ -270,4 +276,12 @@ func OracleHung(prop string) func(w *World, h *History) {
 		}
 		h.holWitness = hol
 	}
+}
+
+// holFromStacks looks for the head-of-line witness in a stack dump.
+func holFromStacks(stacks string) string {
+	if strings.Contains(stacks, "noFlowControlReceiver") && strings.Contains(stacks, ".accept(") {
+		return "recv-loop-blocked-in-rev0-accept"
+	}
+	return "no"
 }
